@@ -115,6 +115,16 @@ def likGrad (m p _n : Nat) (P : Nat → Nat → α) (dev : Nat → α) (J : Nat 
 def lognDenseGrad [Div α] [OfNat α 1] (n : Nat) (P : Nat → Nat → α) (x logx μ : Nat → α) (i : Nat) : α :=
   (1 / x i) * (-(1 : α) + gaussGrad n P logx μ i)
 
+/-- `Image2D(im_shape=(h, w), order)`: parameter index of the pixel `(r, c)` —
+    `r*w + c` for `order='C'` (row-major), `c*h + r` for `order='F'` (column-major). -/
+def image2dParIndex (orderF : Bool) (h w r c : Nat) : Nat := if orderF then c * h + r else r * w + c
+
+/-- Jacobian of `Image2D.par2fun` with the function values listed row-major (`l = r*w + c`):
+    the permutation matrix `G l i = [i is the parameter index of pixel l]`.  `Image2D.fun2par`
+    (`funvals.ravel(order)`) applied to an image-shaped function-space gradient is `Gᵀ`. -/
+def image2dJac [OfNat α 1] (orderF : Bool) (h w : Nat) (l i : Nat) : α :=
+  if image2dParIndex orderF h w (l / w) (l % w) = i then 1 else 0
+
 /-- `Posterior._gradient` / `MultipleLikelihoodPosterior.gradient`: sum of the parts -/
 def sumGrad (parts : List (Nat → α)) (i : Nat) : α := parts.foldl (fun acc g => acc + g i) 0
 
